@@ -1001,10 +1001,15 @@ MUST_PROVE = (
 )
 
 
+# matching sites that are neither discharged nor control-dependent on a test of their operands on the audited tree
+# (their safety rests on a caller's guard or a data-structure invariant; not claimed)
+MUST_PROVE_UNGUARDED = {}
+
+
 def r01_13(ctx, crates=("sonic_rs", "sonic_number"), floor=40):
     """interval abstract interpretation: arithmetic/index checks that today's guards discharge stay discharged,
     and no check is violated by a bound the program itself establishes"""
-    from ..intervals import obligations
+    from ..intervals import obligations, guard_present
     prog = ctx.prog()
     tally = collections.Counter()
     per_fn = {}
@@ -1045,12 +1050,17 @@ def r01_13(ctx, crates=("sonic_rs", "sonic_number"), floor=40):
             ctx.ob("R01.13", key, False, cands[0][0].loc() if cands else "", f"anchor not found: no {kind} obligation matching {rx} in {fname} ({why})")
             continue
         good = [(f, o) for f, o in sites if o["verdict"] == "proved"]
-        bad = [(f, o) for f, o in sites if o["verdict"] != "proved"]
-        ok = len(good) >= want
+        # a site the intervals cannot decide, but which is control-dependent on a test of the same values: a guard
+        # written in an idiom the engine does not model is not reported (only a weakened or missing guard is)
+        soft = [(f, o) for f, o in sites if o["verdict"] == "unknown" and guard_present(f, o["b"], o.get("ops") or [])]
+        bad = [(f, o) for f, o in sites if o["verdict"] != "proved" and (f, o) not in soft]
+        max_bad = MUST_PROVE_UNGUARDED.get((fname, kind, rx), 0)
+        ok = len(good) + len(soft) >= want and len(bad) <= max_bad and not any(o["verdict"] == "exceeds" for f, o in sites)
         f0, o0 = (bad if (bad and not ok) else sites)[0]
         ctx.ob("R01.13", key, ok, f0.loc(o0["ln"]),
-               (f"{len(good)} site(s) discharged by the guards in the function, e.g. {good[0][1]['desc']}: {good[0][1]['detail']}" if ok else
-                f"only {len(good)} of the {want} sites discharged on the audited tree are still discharged; {o0['desc']}: {o0['detail']} ({o0['verdict']})") + f" - {why}")
+               (f"{len(good)} site(s) discharged by the guards in the function" + (f", e.g. {good[0][1]['desc']}: {good[0][1]['detail']}" if good else "") +
+                (f"; {len(soft)} guarded by a test the interval engine does not model" if soft else "") if ok else
+                f"{len(good)} discharged + {len(soft)} otherwise guarded of the {want} sites discharged on the audited tree, {len(bad)} unguarded (audited: {max_bad}); {o0['desc']}: {o0['detail']} ({o0['verdict']})") + f" - {why}")
 
 
 def r01_8(ctx):
